@@ -14,7 +14,7 @@ class ProgGen:
                  p_await: float = 0.35, p_fail: float = 0.0, p_timeout: float = 0.0, p_burst: float = 0.0,
                  p_stuck: float = 0.08, p_factory: float = 0.15, p_opt: float = 0.1, p_delay_pub: float = 0.0, min_nodes: int = 1,
                  p_act_await: float = 0.2, p_overlap: float = 0.1,
-                 p_busy: float = 0.0, p_contend: float = 0.08) -> None:
+                 p_busy: float = 0.0, p_contend: float = 0.08, p_abort: float = 0.08) -> None:
         self.rng = rng
         self.max_nodes = max_nodes
         self.max_depth = max_depth
@@ -32,6 +32,7 @@ class ProgGen:
         self.p_overlap = p_overlap
         self.p_busy = p_busy
         self.p_contend = p_contend
+        self.p_abort = p_abort
         self.prog: list[dict[str, Any]] = []
         self.keys: list[tuple[int, str, int]] = []     # (ty, final name, publisher)
         self.used: set[tuple[int, str]] = set()
@@ -249,6 +250,37 @@ class ProgGen:
                    {"a": "publishFactory", "ty": ty, "name": key, "fid": self.n_res, "slow": rng.choice([2, 3])}])
         self.keys.append((ty, "default", len(self.prog) - 1))
 
+    def abort(self) -> None:
+        """A generation that comes to nothing while others wait for it. A slow asynchronous factory; the first
+        component to look it up gives up after a while (its lookup is cancelled by a time limit of its own) - or
+        the factory's first call fails and that component handles the error; a second component has been waiting
+        for that generation since before, a third arrives later: both must still get the product (of a second
+        call of the factory), at the time a fresh generation takes from the moment the first came to nothing.
+        Four extra leaves under the root; all request times are distinct half ticks."""
+        rng = self.rng
+        ty = rng.randrange(NT)
+        self.n_res += 1
+        key = f"ab{self.n_res}"
+        self.used.add((ty, key))
+        slow = rng.choice([2, 3, 4])
+        fails = rng.random() < 0.5
+        fac = {"a": "publishFactory", "ty": ty, "name": key, "fid": self.n_res, "slow": slow}
+        if fails:
+            fac["failFirst"] = 1
+            first = {"a": "awaitCatch", "ty": ty, "name": key}
+            end = 1 + slow
+        else:
+            first = {"a": "awaitGiveUp", "ty": ty, "name": key, "g": 1}
+            end = 2
+        # (the five acts belong together: the shrinker keeps all of them or none)
+        fac.update(grp=key, grp_n=5)
+        first["grp"] = key
+        self.leaf([fac])
+        self.leaf([{"a": "tick", "d": 1, "grp": key}, first])
+        self.leaf([{"a": "tick", "d": 1.5, "grp": key}, {"a": "await", "ty": ty, "name": key, "keep": True, "grp": key}])
+        if rng.random() < 0.7:
+            self.leaf([{"a": "tick", "d": end + 0.5}, {"a": "await", "ty": ty, "name": key, "keep": True}])
+
     def overlap(self) -> None:
         """A sibling already waits for (T, n) when a component publishes a resource under (T2, n) and then a
         factory for both T and T2 under n, with nothing else published afterwards."""
@@ -297,6 +329,8 @@ class ProgGen:
             self.busy()
         if rng.random() < self.p_contend:
             self.contend()
+        if rng.random() < self.p_abort:
+            self.abort()
         if rng.random() < self.p_fail:
             self.inject_fault()
         timeout = 10.0 ** 6
@@ -308,6 +342,16 @@ class ProgGen:
 def valid_prog(prog: list[dict[str, Any]]) -> bool:
     """A two-type factory needs the resource that occupies its second type, published earlier in the same body
     (used by the shrinker)."""
+    grp: dict[str, list[int]] = {}
+    for spec in prog:
+        for ph in ("prepare", "start"):
+            for a in spec[ph] or []:
+                if "grp" in a:
+                    g = grp.setdefault(a["grp"], [0, 0])
+                    g[0] += 1
+                    g[1] = max(g[1], a.get("grp_n", 0))
+    if any(n != want for n, want in grp.values()):
+        return False
     for spec in prog:
         for ph in ("prepare", "start"):
             acts = spec[ph] or []
